@@ -22,7 +22,7 @@ pub fn check() -> Check {
         spec: CheckSpec {
             id: "C14",
             level: "exploration",
-            rule: "one case = a chain of 1-4 recorded episodes on one directory (each a generated plan of set/del/get, merges, reopen cycles; between episodes the process is 'killed' at a random call boundary and the next episode starts on exactly what the log prefix left behind). Every logged call on the store directory is run through the rule monitor: R1 store files are opened for writing only with O_CREAT|O_EXCL, never O_TRUNC; R2 every write lands at the current end of file (O_APPEND or offset == size) and no writable shared mapping exists; R3 no truncate/rename/link on store files; R4 writes only through the descriptor (or a dup) of the creating open; R5 each created data file has an id above every data-file id the directory has ever held across the whole chain, a hint file's id is that of a data file created in the same merge pass; R6 (on the real files after each episode) the last record of every data file starts at or before the max_file_size in force when the file was created. Non-trivial = a chain with at least one merge that removed files and one restart; distinct = by hash of the call-kind sequence.",
+            rule: "one case = a chain of 1-4 recorded episodes on one directory (each a generated plan of set/del/get, merges, reopen cycles; in a quarter of the chains one create/write/fsync/unlink per episode fails with ENOSPC or EIO, in another quarter some writes are completed only partly; between episodes the process is 'killed' at a random call boundary and the next episode starts on exactly what the log prefix left behind). Every logged call on the store directory is run through the rule monitor: R1 store files are opened for writing only with O_CREAT|O_EXCL, never O_TRUNC; R2 every write lands at the current end of file (O_APPEND or offset == size) and no writable shared mapping exists; R3 no truncate/rename/link on store files; R4 writes only through the descriptor (or a dup) of the creating open; R5 each created data file has an id above every data-file id the directory has ever held across the whole chain, a hint file's id is that of a data file created in the same merge pass; R6 (on the real files after each episode) the last record of every data file starts at or before the max_file_size in force when the file was created. Non-trivial = a chain with at least one merge that removed files and one restart; distinct = by hash of the call-kind sequence.",
             assumptions: vec![
                 "the shim sees every call that changes the directory (fidelity self-check after each episode; mismatch = inconclusive)",
                 "a raw syscall() would bypass the shim; the fidelity check turns that into an inconclusive run rather than a silent pass",
@@ -198,6 +198,10 @@ fn chain(ctx: &Ctx, case: u64, out: &mut Out) {
     let mut merges_removing = 0u64;
     let mut restarts = 0u64;
     let mut plans = Vec::new();
+    // the calls of the whole chain are kept (data bytes dropped); on a violation their tail goes into
+    // the witness: merges copy in an order that differs from process to process, so a replay may
+    // take another path
+    let mut kept: Vec<(u64, Vec<String>, Vec<Ev>, Option<usize>)> = Vec::new(); // link, op briefs, events, kill cut
     for link in 0..links {
         let opts = PlanOpts {
             min_ops: 10,
@@ -219,7 +223,23 @@ fn chain(ctx: &Ctx, case: u64, out: &mut Out) {
             crate::shim::short_writes(400_000, Rng::derive(ctx.seed, 0xC14_5000_0000 ^ case ^ ((link as u64) << 32)).next_u64() | 1);
             out.count("episodes_with_short_writes", 1);
         }
-        let rec = run_recorded(&dir, &plan, true, |_| {});
+        // another quarter: one file-system call of the episode fails (ENOSPC/EIO on a create, write,
+        // fsync or unlink). The file discipline is not allowed to slip after a failed operation
+        // either (a rollover that could not create its file, a merge given up half-way)
+        let fault_at = if case % 4 == 1 { Some((r.below(plan.ops.len() as u64) as usize, r.below(4) as i64, if r.chance(1, 2) { libc::ENOSPC } else { libc::EIO })) } else { None };
+        let rec = run_recorded(&dir, &plan, true, |i| {
+            if let Some((at, nth, errno)) = fault_at {
+                if i == at {
+                    crate::shim::fail(C_CREATE | C_WRITE | C_FSYNC | C_UNLINK, F_ANY, nth, errno);
+                }
+            }
+        });
+        if fault_at.is_some() {
+            if crate::shim::fail_hit().is_some() {
+                out.count("episodes_with_one_failed_call", 1);
+            }
+            crate::shim::fail_off();
+        }
         crate::shim::short_writes(0, 0);
         out.count("episodes_recorded", 1);
         // monitor + model in lock step
@@ -281,6 +301,7 @@ fn chain(ctx: &Ctx, case: u64, out: &mut Out) {
                 out.count("files_size_checked", 1);
             }
         }
+        kept.push((link, plan.ops.iter().map(|o| o.brief()).collect(), rec.events.iter().map(|e| { let mut e = e.clone(); e.data = Vec::new(); e }).collect(), None));
         if !mon.violations.is_empty() {
             break;
         }
@@ -293,6 +314,9 @@ fn chain(ctx: &Ctx, case: u64, out: &mut Out) {
             break;
         }
         let cut = *r.pick(&pts);
+        if let Some(k) = kept.last_mut() {
+            k.3 = Some(cut);
+        }
         let mut m2 = start_model.clone();
         for ev in &rec.events[..=cut] {
             m2.apply(ev);
@@ -326,7 +350,24 @@ fn chain(ctx: &Ctx, case: u64, out: &mut Out) {
         out.sample(json!({"case": case, "links": links, "first_plan": plans.first(), "calls_by_kind": mon.calls_by_kind, "highest_id": mon.ever_max}));
     }
     for (rule, what) in &mon.violations {
-        out.violation(rule, format!("case {}: {}", case, what), ctx.replay(case, json!({"plans": plans})));
+        let mut trace: Vec<String> = Vec::new();
+        for (link, ops, evs, cut) in &kept {
+            for (i, ev) in evs.iter().enumerate() {
+                if ev.kind != K_CLOSE && ev.kind != K_MMAP && !(ev.kind == K_OPEN && ev.a & (libc::O_CREAT as u64 | O_ACCMODE) == 0) {
+                    if ev.is_mark(M_OP_BEGIN) && ev.a != u64::MAX {
+                        trace.push(format!("link {} op {} {}", link, ev.a, ops.get(ev.a as usize).cloned().unwrap_or_default()));
+                    } else if !ev.is_mark(M_OP_END) && !ev.is_mark(M_OP_BEGIN) {
+                        trace.push(format!("     {}", ev.brief()));
+                    }
+                }
+                if *cut == Some(i) {
+                    trace.push(format!("--- the next link starts on the directory as it was here (kill after call {} of link {}) ---", i, link));
+                }
+            }
+            trace.push(format!("--- end of link {} ---", link));
+        }
+        let tail: Vec<&String> = trace.iter().rev().take(600).collect::<Vec<_>>().into_iter().rev().collect();
+        out.violation(rule, format!("case {}: {}", case, what), ctx.replay(case, json!({"plans": plans, "trace_tail": tail})));
     }
     let _ = std::fs::remove_dir_all(&dir);
 }
